@@ -356,10 +356,9 @@ impl Cartesian<'_> {
     ) -> Result<Vec<Joints>, Transition> {
         pub const DIV_RATIO: f64 = 0.5;
 
-        // Not checked for collisions yet
+        // Only collision free solutions (at the configured safety distances) are considered
         let solutions = self
             .robot
-            .kinematics
             .inverse_continuing(&to.pose, &starting);
 
         // Solutions are already sorted best first
